@@ -258,8 +258,11 @@ func init() {
 			if thorough() {
 				o.MaxNT, o.MaxInput = 4, 8
 			}
-			if rapid.IntRange(0, 3).Draw(t, "percent") == 0 {
+			switch rapid.IntRange(0, 7).Draw(t, "percent") {
+			case 0, 1:
 				o.Alphabet = "a%\n" // an expectation that contains a formatting verb character
+			case 2:
+				o.Alphabet = "a\f\n" // a form feed is a byte like any other for line and column
 			}
 			if rapid.IntRange(0, 3).Draw(t, "extramemo") == 0 {
 				o.ExtraMemo = 4
